@@ -550,6 +550,8 @@ def gen_cases(rng, tier, fields, gfq):
                 f = IRR.get(rng, F, rng.range(1, 4 if F.q < 10 else 2), True)
                 if f not in seen2:
                     seen2.append(f)
+            if i % 4 == 0 and len(seen) >= 2:      # exactly two factors of degree deg/2: the last round of the loop
+                seen2 = seen[:2]
             P = product(F, [(f, 1) for f in seen2])
             if rng.chance(1, 3):
                 P = pscale(F, 1 + rng.below(F.q - 1), P)
